@@ -186,6 +186,15 @@ def _assert_calls(p, f):
     """assignments `v = <...>.assert_(v, cond, ...)` and `v = <...>.cast(v, ...)` in f"""
     out = []
     for n in walk_no_nested(f.node):
+        # `return cast(v, ...)` is the last step of the pipeline of v as well
+        if isinstance(n, ast.Return) and isinstance(n.value, ast.Call) and n.value.args and isinstance(n.value.args[0], ast.Name):
+            chr_ = attr_chain(n.value.func)
+            if chr_ and chr_[-1] == "cast":
+                fake = ast.copy_location(ast.Assign(targets=[ast.Name(id=n.value.args[0].id, ctx=ast.Store())], value=n.value), n)
+                fake._parent = getattr(n, "_parent", None)
+                fake._stands_for = n
+                out.append((n, n.value.args[0].id, "cast", None))
+                continue
         if isinstance(n, ast.Assign) and isinstance(n.value, ast.Call) and len(n.targets) == 1 and isinstance(n.targets[0], ast.Name):
             ch = attr_chain(n.value.func)
             if ch and ch[-1] in ("assert_", "cast") and n.value.args and isinstance(n.value.args[0], ast.Name) and n.value.args[0].id == n.targets[0].id:
